@@ -14,7 +14,10 @@ SEPS = [' ', '\n', '\t', '\r\n', '  ', '\n\n', ' \t ',
         ' -- a comment --\n', ' -- a comment\n', ' --x-- ', ' -- "quoted" \' /* not block -- ',
         ' /* block */ ', ' /* multi\nline\nblock */ ', ' /* outer /* nested */ still */ ',
         ' /* has -- dashes and "quotes" */ ', ' /* 5" wide */ ', " /* it's one \" and ' */ ",
-        ' -- one " quote --\n', ' -- it\'s\n', '\n-- full line comment\n', ' /**/ ', '\n/*\n*/\n', ' --\n']
+        ' -- one " quote --\n', ' -- it\'s\n', '\n-- full line comment\n', ' /**/ ', '\n/*\n*/\n', ' --\n',
+        # nested block comments spread over several lines (the line count must survive every nesting level)
+        ' /* outer\n /* nested\n */ still\n */ ', '\n/* a\n\n/* b */\n/* c\n*/ d */\n',
+        ' /* 1 /* 2\n /* 3 */\n */\n */ ', ' /*\n/**/\n*/ ', ' /* x -- y\n /* z */ -- w\n */ ']
 MULTI = [('OCTET', 'STRING'), ('BIT', 'STRING'), ('OBJECT', 'IDENTIFIER'), ('WITH', 'COMPONENTS'),
          ('WITH', 'COMPONENT'), ('COMPONENTS', 'OF'), ('EXTENSIBILITY', 'IMPLIED'), ('DEFINED', 'BY'),
          ('ANY', 'DEFINED'), ('WITH', 'SYNTAX'), ('CONSTRAINED', 'BY')]
